@@ -243,7 +243,7 @@ _CMP = {
 def compare(I, op, l: Any, r: Any, st, lexpr=None, rexpr=None) -> list:
     """-> list of (bool, state), refining CharSet / IntSet operands read from variables."""
     hook = I.probes.get("compare")
-    if hook is not None and isinstance(l, Opaque) and isinstance(r, Opaque):
+    if hook is not None and isinstance(l, (Opaque, Term)) and isinstance(r, (Opaque, Term)):
         hv = hook(I, op, l, r, st)
         if isinstance(hv, bool):
             return [(hv, st)]
